@@ -17,7 +17,7 @@ func ScopeOfTable(t TableSpec, alias string) []ScopeCol {
 
 type QOpts struct {
 	Expr       ExprOpts
-	Depth      int  // nesting budget for FROM subqueries / CTEs
+	Depth      int // nesting budget for FROM subqueries / CTEs
 	ExprDepth  int
 	NoOrder    bool
 	NoLimit    bool
